@@ -233,7 +233,10 @@ def main():
                 r = replay_concrete(path)
                 rec["replay"] = {"path": path, "outcome": r}
                 reproduced = r.get("pre") and r.get("result") in (False, "exception")
-                if ob.expect == "refute":
+                if r.get("result") in ("harness-bug", "stubgap"):
+                    rec["verdict"] = "harness-error"
+                    harness_errors.append("%s: %s while replaying: %s" % (label, r.get("result"), (r.get("exception") or "")[-600:]))
+                elif ob.expect == "refute":
                     if reproduced:
                         rec["verdict"] = "witness"
                         discharged += 1
